@@ -39,6 +39,7 @@ import (
 	"path/filepath"
 	"regexp"
 	"runtime"
+	"runtime/pprof"
 	"sort"
 	"strconv"
 	"strings"
@@ -125,6 +126,7 @@ func (r *recorder) take() []permCheck {
 // ---- inotify: which regular files did the process open under the store root? ------------------------
 
 type watcher struct {
+	buf  []byte
 	fd   int
 	dirs map[int32]string // watch descriptor -> directory (relative to root, "" for root)
 }
@@ -158,8 +160,11 @@ func newWatcher(root string) (*watcher, error) {
 
 // drain returns the sorted set of regular files (relative to the root) opened/read since the last drain.
 func (w *watcher) drain() []string {
-	set := map[string]bool{}
-	buf := make([]byte, 64*1024)
+	var set map[string]bool
+	if w.buf == nil {
+		w.buf = make([]byte, 64*1024)
+	}
+	buf := w.buf
 	for {
 		n, err := syscall.Read(w.fd, buf)
 		if n <= 0 || err != nil {
@@ -175,10 +180,16 @@ func (w *watcher) drain() []string {
 				name = string(bytes.TrimRight(nb, "\x00"))
 			}
 			if e.Mask&syscall.IN_ISDIR == 0 && name != "" {
+				if set == nil {
+					set = map[string]bool{}
+				}
 				set[filepath.Join(w.dirs[e.Wd], name)] = true
 			}
 			off += syscall.SizeofInotifyEvent + nameLen
 		}
+	}
+	if len(set) == 0 {
+		return nil
 	}
 	out := make([]string, 0, len(set))
 	for f := range set {
@@ -517,6 +528,11 @@ func (g *grid) reduce(x elem) elem {
 						break
 					}
 				}
+				if !done && d.AltI != "" {
+					y = x
+					y.d = g.dcIdx[d.AltI]
+					done = try(y)
+				}
 				if !done && d.Base != "" {
 					y = x
 					y.d = g.dcIdx[d.Base]
@@ -586,6 +602,29 @@ func (g *grid) bypass(x elem) string {
 	return strings.Join(parts, "+")
 }
 
+// cause is a reading aid for the report (never part of a signature): which gate of internal/api/query.go the
+// surviving dimensions defeat.
+func (g *grid) cause(x elem) string {
+	d, fam, sk := g.dc[x.d].Name, g.fl[x.f].Family, g.sk[x.s].Name
+	switch {
+	case d == "identifier-backtick":
+		return "ValidateSQLRequest maps every backtick to a double quote before masking (backticksToDoubleQuotes), so a backtick INSIDE a quoted identifier flips the quote parity of the shared normalisation; ioDenylistNormalise then deletes the quotes and the path's /**/ reads as a comment"
+	case strings.HasPrefix(d, "identifier-") || d == "table-alias-quoted-single-quote" || d == "table-alias-quoted-line-comment" || d == "table-alias-quoted-open-paren":
+		return "ioDenylistNormalise deletes identifier quotes BEFORE lexing, so the text of a quoted identifier (' -- /* ( ) is re-lexed as SQL and hides the call / the table position from ioTableFunctionPattern and stringLiteralInTablePosition"
+	case strings.HasPrefix(d, "table-alias-quoted-") || strings.HasPrefix(d, "on-struct-field"):
+		return "maskedTokenInTablePosition/fromClauseTerminator treat any word spelled where/order/... as the end of the FROM list (a quoted alias after ioDenylistNormalise's quote deletion, or a struct field after a dot), disarming the comma-join check"
+	case fam == "fn-spelling:gap:unicode-space":
+		return "ioTableFunctionPattern requires `name\\s*(`; DuckDB's tokenizer also skips Unicode blanks (U+00A0, U+2000-200D, U+202F, U+205F, U+2060, U+3000, U+FEFF), RE2's \\s does not"
+	case fam == "path:only":
+		return "maskedTokenInTablePosition expects the table right after FROM/JOIN/comma; FROM ONLY '<path>' (and `, ONLY '<path>'`) puts a modifier in between"
+	case strings.HasPrefix(fam, "fn-plain:") || strings.HasPrefix(fam, "fn-sqltext:"):
+		return "function missing from the ioTableFunctionPattern denylist (query/json_execute_serialized_sql execute SQL text held in a masked string literal)"
+	case strings.HasPrefix(sk, "table-") || sk == "describe" || sk == "show" || sk == "summarize" || sk == "pivot" || sk == "unpivot" || strings.HasPrefix(sk, "get-where-exists"):
+		return "maskedTokenInTablePosition only recognises table positions introduced by FROM/JOIN (and commas after them); TABLE/DESCRIBE/SHOW/SUMMARIZE/PIVOT/UNPIVOT '<path>' are replacement scans too"
+	}
+	return ""
+}
+
 func reqText(r request) string {
 	t := r.SQL
 	if r.Method == "GET" {
@@ -621,6 +660,11 @@ func main() {
 	sig := make(chan os.Signal, 1)
 	signal.Notify(sig, syscall.SIGINT, syscall.SIGTERM)
 	go func() { <-sig; cleanup(); os.Exit(130) }()
+	if pf := os.Getenv("C14_CPUPROFILE"); pf != "" {
+		f, _ := os.Create(pf)
+		pprof.StartCPUProfile(f)
+		defer pprof.StopCPUProfile()
+	}
 	fx := makeFixtures(scratch)
 	if len(os.Args) > 1 && os.Args[1] == "probe" {
 		probe(fx)
@@ -649,7 +693,7 @@ func main() {
 			if !g.dc[i].Core {
 				continue
 			}
-			for _, n := range append(append([]string{}, g.dc[i].Parts...), g.dc[i].Base) {
+			for _, n := range append(append([]string{}, g.dc[i].Parts...), g.dc[i].Base, g.dc[i].AltI) {
 				if n != "" && !g.dc[g.dcIdx[n]].Core {
 					g.dc[g.dcIdx[n]].Core, changed = true, true
 				}
@@ -702,6 +746,17 @@ func main() {
 						}
 					}
 				}
+			}
+		}
+		if os.Getenv("C14_COUNT") == "2" {
+			for _, fi := range g.flSel {
+				fmt.Println("F", g.fl[fi].Key)
+			}
+			for _, di := range g.dcSel {
+				fmt.Println("D", g.dc[di].Name)
+			}
+			for _, si := range g.skSel {
+				fmt.Println("S", g.sk[si].Name)
 			}
 		}
 		fmt.Printf("tier=%s skeletons=%d fillers=%d decoys=%d statements=%d listing=%d\n", run.Tier, len(g.skSel), len(g.flSel), len(g.dcSel), n, len(buildListing(run.Quick())))
@@ -778,6 +833,9 @@ func main() {
 							if e >= 2 && !anyExec {
 								continue // msgpack: only statements some store executed
 							}
+							if e == 1 && run.Quick() && d != 0 {
+								continue // quick sub-product: the estimate endpoint sees the decoy-free statements
+							}
 							j := w.judge(r)
 							g.verdict[e][idx] = j.V
 							nEval++
@@ -812,9 +870,9 @@ func main() {
 	wg.Wait()
 
 	// ---- phase 2: classes -----------------------------------------------------------------------------------
-	// every violating case is minimised; cases are one class when they violate the same way (oracle kind) and
-	// their minimal forms differ from the canonical statement in the same dimensions (bypass). The class is
-	// represented by its first minimal form in (core first, table order) — the same one in both tiers.
+	// every violating case is minimised; cases are one class when their minimal forms differ from the
+	// canonical statement in the same dimensions (bypass). The class is represented by its first minimal
+	// form in (core first, table order) — the same one in both tiers — and carries that form's oracle kind.
 	type class struct {
 		rep   elem
 		count int
@@ -852,7 +910,7 @@ func main() {
 						}
 						rawViol++
 						m := g.reduce(x)
-						key := kindName(primary(g.v(m))) + "|" + g.bypass(m)
+						key := g.bypass(m)
 						c := classes[key]
 						if c == nil {
 							c = &class{rep: m}
@@ -882,8 +940,8 @@ func main() {
 			cleanup()
 			ev.Nondeterminism(fmt.Sprintf("verdict of %q changed on replay: table=%d replay=%d,%d", reqText(r), g.v(m), j.V, j2.V))
 		}
-		sigText := key + "|" + reqText(r)
-		desc := fmt.Sprintf("%d enumerated cases minimise to this class. %s", classes[key].count, describe(j))
+		sigText := kindName(primary(j.V)) + "|" + key + "|" + reqText(r)
+		desc := fmt.Sprintf("%d enumerated cases minimise to this class. Likely gate: %s. %s", classes[key].count, g.cause(m), describe(j))
 		for i := 0; i < classes[key].count; i++ {
 			run.Violate(sigText, desc, map[string]any{"request": r, "root": "{ROOT} = storage root of the store", "statuses": j.Statuses,
 				"opened_canaryA_store": j.Resp[0].Opened, "permission_checks": fmt.Sprint(j.Resp[0].Checks)})
@@ -944,6 +1002,7 @@ func main() {
 		run.Coverage["samples"] = []any{"none"}
 	}
 	cleanup()
+	pprof.StopCPUProfile()
 	run.Finish()
 }
 
